@@ -31,6 +31,15 @@ CHECKS = {
  'C16': ('exploration', 'process-model table + context oracle over run() start events; canary scan of stored files',
          'Held on every explored run: pid/ppid/thread/memory-inheritance as the backend promises, context == own filter_context(lab context), keys and stored bytes independent of context.',
          'Memory sharing observed through a module global mutated after import.', '4 C16'),
+ 'C06': ('exploration', 'first-run/second-run/fresh-interpreter comparison of generation-stamped values, start events and result_meta',
+         'Held on every explored (DAG, result shapes, backend triple, storage): executed => cached; later runs in the same and in a fresh interpreter (other hash seed, other backend) return the recorded values without run() and with the recorded start/duration.',
+         'Values embed task name and generation so cross-wired/re-executed results differ.', '4 C06'),
+ 'C08': ('exploration', 'step-by-step comparison of observable Lab state with a dict reference model over random operation histories; audit hook for storage=None',
+         'Held after every operation of every explored history across 5 storage providers and 3 backends.',
+         'cached_tasks compared by key set; memory fsspec only with the serial backend.', '4 C08'),
+ 'C09': ('exploration', 'multiset oracle over cached_tasks output for every type list + reload without execution',
+         'Held on every explored storage content: exactly the cached tasks of the listed types, once, equal, same key, stored meta; reload executes nothing. One known finding (marker-imitating dicts).',
+         'Typed canonical identity decides which tasks are distinct; cases with Python-equal but distinct tasks (1 vs 1.0) skipped.', '4 C09'),
  'C10': ('fault_enumeration', 'failure-closure (taint) model over results, cache contents, start events, launch ledger after the raise',
          'Held for every explored (DAG, failing subset, fault kind, backend, completion order, continue_on_failure).',
          'Unpicklable exceptions may surface as TaskDiedError; no bust_cache with failures.', '4 C10'),
